@@ -336,3 +336,56 @@ pub fn pumping(tier: Tier) -> Vec<String> {
     }
     out
 }
+
+/// A9 — the one-edit neighbourhood of the upstream conformance corpus: every deletion, every
+/// insertion and every substitution of one token from a separator/escape alphabet at every position
+/// of every corpus string (input and canonical form), plus adjacent transpositions. Deterministic
+/// and exhaustive within "one edit"; replaces the "mutated from the conformance corpus" part of the
+/// quantifiers.
+pub fn corpus_edits() -> Vec<String> {
+    const EDITS: [&str; 40] = [
+        "/", "@", "?", "#", "&", "=", "%", ":", ".", "+", "-", "_", "~", "!", " ", "\"", "<", ">", "{", "}", "`", "\\", "é", "É", "ǅ", "A", "a", "0", "%2F", "%40", "%3F", "%23", "%26", "%3D", "%25", "%2e", "%41", "%C3", "%80",
+        "\u{0}",
+    ];
+    let mut seeds: Vec<String> = Vec::new();
+    for rec in crate::selftest::corpus_records() {
+        for k in ["purl", "canonical_purl"] {
+            if let Some(s) = rec[k].as_str() {
+                if !seeds.iter().any(|x| x == s) {
+                    seeds.push(s.to_owned());
+                }
+            }
+        }
+    }
+    let mut seen = std::collections::HashSet::new();
+    let mut out = Vec::new();
+    let mut push = |s: String, out: &mut Vec<String>| {
+        if seen.insert(crate::common::h64(&s)) {
+            out.push(s);
+        }
+    };
+    for s in &seeds {
+        push(s.clone(), &mut out);
+        let idx: Vec<usize> = s.char_indices().map(|(i, _)| i).chain(std::iter::once(s.len())).collect();
+        for w in 0..idx.len() {
+            let i = idx[w];
+            for e in EDITS {
+                // insertion at i
+                push(format!("{}{}{}", &s[..i], e, &s[i..]), &mut out);
+                // substitution of the character at i
+                if w + 1 < idx.len() {
+                    push(format!("{}{}{}", &s[..i], e, &s[idx[w + 1]..]), &mut out);
+                }
+            }
+            if w + 1 < idx.len() {
+                // deletion
+                push(format!("{}{}", &s[..i], &s[idx[w + 1]..]), &mut out);
+                // adjacent transposition
+                if w + 2 < idx.len() {
+                    push(format!("{}{}{}{}", &s[..i], &s[idx[w + 1]..idx[w + 2]], &s[i..idx[w + 1]], &s[idx[w + 2]..]), &mut out);
+                }
+            }
+        }
+    }
+    out
+}
